@@ -137,7 +137,8 @@ def new_stats():
     return {'runs': 0, 'decisions': 0, 'thread_steps': 0, 'events_fired': 0, 'sim_time': 0.0,
             'outcomes': {}, 'faults': {}, 'probes': {}, 'strategies': {}, 'net': {},
             'digests': {}, 'windows': [], 'unknown_lines': 0, 'boards': 0, 'tables': {}, 'extra': {},
-            'cov': {'calls': [], 'cards': [], 'headers': [], 'voids': [], 'hand_sizes': []}}
+            'cov': {'calls': [], 'cards': [], 'headers': [], 'voids': [], 'hand_sizes': [],
+                    'contracts': []}}
 
 
 def add_run_stats(st, run, an, windows, label):
@@ -227,6 +228,18 @@ def exec_run(scn, sched, props, label):
     for k in cov:
         st['cov'][k] = sorted(map(list, cov[k])) if k in ('calls', 'cards', 'headers') else \
             sorted(cov[k])
+    # which cells of the scoring table reached a log record: (contract with doubling,
+    # declarer's side vulnerable?, made / down)
+    cells = set()
+    for i, d in enumerate(an.decisions):
+        res = d.get('result')
+        if d.get('complete') and res and res['declarer'] is not None and i < len(an.model_records):
+            rec = an.model_records[i]
+            vul = scn['boards'][i]['vul']
+            dv = vul == 'Both' or vul == rb.side(res['declarer'])
+            made = rec['scores'][rb.side(res['declarer'])] > 0
+            cells.add(f"{res['contract']}/{'V' if dv else 'nv'}/{'made' if made else 'down'}")
+    st['cov']['contracts'] = sorted(cells)
     ok = run.outcome == 'finished' and run.server_exc is None
     res = {'st': st, 'info': pilot_info(run), 'digest': run.digest,
            'findings': [finding_record(f, scn, sched, run) for f in an.findings
